@@ -268,13 +268,13 @@ def eval_revalidate(case):
 
 
 FAMILIES = [
-    Family("frames", evaluate, strategy=lambda: gen.repaired_case(), n_quick=700, n_thorough=6000, shards_quick=4,
+    Family("frames", evaluate, strategy=lambda: gen.repaired_case(), n_quick=1400, n_thorough=6000, shards_quick=4,
            shards_thorough=16,
            required_labels=["ref=accept", "ref=reject", "kind=series", "has:index", "has:regex", "has:frame:strict",
                             "has:frame:ordered", "has:unique", "has:check"]),
-    Family("strings", evaluate, strategy=strat_strings, n_quick=300, n_thorough=3000, shards_quick=2, shards_thorough=8,
+    Family("strings", evaluate, strategy=strat_strings, n_quick=600, n_thorough=3000, shards_quick=2, shards_thorough=8,
            required_labels=["ref=accept", "ref=reject", "has:check"]),
-    Family("revalidate", eval_revalidate, strategy=strat_revalidate, n_quick=400, n_thorough=3000, shards_quick=3,
+    Family("revalidate", eval_revalidate, strategy=strat_revalidate, n_quick=800, n_thorough=3000, shards_quick=3,
            shards_thorough=12, required_labels=["ref2=reject", "ref2=accept", "first=inplace", "kind=series"]),
 ]
 
